@@ -546,6 +546,24 @@ func (fr *frame) applyContract(con *Contract, callee *ssa.Function, sig *types.S
 		// continue under the assumption that the precondition held
 		vc.assume(implies(fr.guard, t))
 	}
+	// termination of recursion: a call of the function under verification to itself must decrease
+	// the function's measure (a mathematical integer, bounded below by 0)
+	if callee != nil && callee == fr.fn && fr.top && fr.con == con {
+		for _, cl := range con.clauses("decreases") {
+			if cl.Loop != 0 {
+				continue
+			}
+			entryEnv := fr.baseEnv()
+			entryEnv.mem, entryEnv.old = fr.entry, fr.entry
+			me := entryEnv.eval(cl.Expr, tMathInt)
+			mc := env.eval(cl.Expr, tMathInt)
+			goal := and(app("<=", "0", mc.S), app("<", mc.S, me.S))
+			if entryEnv.sortOf(me) != sInt {
+				goal = app("bvult", mc.S, me.S)
+			}
+			vc.oblige("decreases", fmt.Sprintf("%s/decreases[recursive call: %s#%d]", vc.Name, clauseLabel(cl), fr.occ("decr:"+clauseLabel(cl))), fr.guard, goal, pos)
+		}
+	}
 	old := fr.mem.clone()
 	// panics
 	var panicCond string
@@ -686,6 +704,7 @@ func (fr *frame) havocModifies(con *Contract, env *SpecEnv, old Mem) {
 	}
 	regs := env.regions(con)
 	byComp := map[string][]region{}
+	var freshComps map[string]bool // typed fresh(...): only these components get new objects
 	allocates := len(con.clauses("allocates")) > 0
 	for _, cl := range con.clauses("ensures") {
 		if strings.Contains(cl.Text, "fresh(") {
@@ -700,6 +719,14 @@ func (fr *frame) havocModifies(con *Contract, env *SpecEnv, old Mem) {
 		}
 		if r.kind == "fresh" {
 			allocates = true
+			if len(r.comps) > 0 {
+				if freshComps == nil {
+					freshComps = map[string]bool{}
+				}
+				for _, c := range r.comps {
+					freshComps[c] = true
+				}
+			}
 			continue
 		}
 		for _, c := range r.comps {
@@ -713,6 +740,9 @@ func (fr *frame) havocModifies(con *Contract, env *SpecEnv, old Mem) {
 		// freshly allocated objects may have any content: every heap component may differ at refs >= old brk
 		for _, c := range sortedKeys(vc.compSort) {
 			if c == "brk" || strings.HasPrefix(c, "G:") || immutableComp(c) {
+				continue
+			}
+			if freshComps != nil && !freshComps[c] {
 				continue
 			}
 			if _, listed := byComp[c]; !listed {
@@ -734,20 +764,26 @@ func (fr *frame) havocModifies(con *Contract, env *SpecEnv, old Mem) {
 			continue
 		}
 		srt := vc.compSort[c]
+		// objects of this component allocated by the callee may hold anything -- unless the contract
+		// lists what it allocates (typed fresh) and this component is not among it
+		below := fmt.Sprintf("(< _r %s)", brk)
+		if !allocates || (freshComps != nil && !freshComps[c]) {
+			below = "true"
+		}
 		if strings.HasPrefix(c, "M:") {
 			var in []string
 			for _, r := range rs {
 				in = append(in, and(eq("_r", r.ref), app("bvule", r.lo, "_j"), app("bvult", "_j", r.hi)))
 			}
-			vc.assume(fmt.Sprintf("(forall ((_r Int) (_j (_ BitVec 64))) (! (=> (and (< _r %s) (not %s)) (= (select (select %s _r) _j) (select (select %s _r) _j))) :pattern ((select (select %s _r) _j))))",
-				brk, or(in...), nt, oldT, nt))
+			vc.assume(fmt.Sprintf("(forall ((_r Int) (_j (_ BitVec 64))) (! (=> (and %s (not %s)) (= (select (select %s _r) _j) (select (select %s _r) _j))) :pattern ((select (select %s _r) _j))))",
+				below, or(in...), nt, oldT, nt))
 		} else if strings.HasPrefix(srt, "(Array Int ") {
 			var in []string
 			for _, r := range rs {
 				in = append(in, eq("_r", r.ref))
 			}
-			vc.assume(fmt.Sprintf("(forall ((_r Int)) (! (=> (and (< _r %s) (not %s)) (= (select %s _r) (select %s _r))) :pattern ((select %s _r))))",
-				brk, or(in...), nt, oldT, nt))
+			vc.assume(fmt.Sprintf("(forall ((_r Int)) (! (=> (and %s (not %s)) (= (select %s _r) (select %s _r))) :pattern ((select %s _r))))",
+				below, or(in...), nt, oldT, nt))
 		}
 	}
 }
@@ -996,6 +1032,13 @@ func (fr *frame) enterLoop(li *loopInfo, fwdPreds []int) {
 	pats := fr.loopMods(li)
 	fr.mem = memIn.clone()
 	vc.havocPats(&fr.mem, pats)
+	if patsMatch(pats, "fresh!") {
+		// The body calls functions that allocate. Components they do not name keep their version at the
+		// loop head: what they hold at references allocated during earlier iterations is whatever the
+		// entry version holds there, i.e. unconstrained -- contracts speak about allocated objects only
+		// (idealisation, listed in the evidence).
+		vc.note("loop head after allocating calls: memory at references not allocated at loop entry is unconstrained (contracts do not quantify over unallocated references)")
+	}
 	fr.keepPrivateInLoop(li, memIn)
 	gh := vc.fresh(fmt.Sprintf("%sL%d", fr.pfx, li.ordinal), sBool)
 	vc.assume(implies(gh, gIn))
@@ -1249,11 +1292,11 @@ func (vc *VC) modsOfCall(c *ssa.CallCommon, pats map[string]bool, seen map[*ssa.
 			}
 		}
 		if len(con.clauses("allocates")) > 0 {
-			pats["brk"] = true
+			pats["brk"], pats["fresh!"] = true, true
 		}
 		for _, cl := range con.clauses("ensures") {
 			if strings.Contains(cl.Text, "fresh(") {
-				pats["*"] = true
+				pats["brk"], pats["fresh!"] = true, true
 			}
 		}
 		return
@@ -1341,7 +1384,7 @@ func regionPatternsTyped(vc *VC, callee *ssa.Function, e *SExpr) []string {
 			if pt, ok := under(specStaticType(callee, e.Args[1])).(*types.Pointer); ok && !isStruct(pt.Elem()) && !isArray(pt.Elem()) {
 				return []string{"C:" + vc.sortOf(pt.Elem())}
 			}
-		case "elems":
+		case "elems", "array":
 			if st, ok := under(specStaticType(callee, e.Args[1])).(*types.Slice); ok {
 				return []string{vc.elemCompName(st.Elem())}
 			}
@@ -1361,16 +1404,19 @@ func regionPatterns(vc *VC, e *SExpr) []string {
 			return []string{"*"}
 		}
 		if e.Name == "fresh" {
-			return []string{"brk"}
+			// objects allocated by the callee may have any content: see enterLoop
+			return []string{"brk", "fresh!"}
 		}
 		return []string{"M:*"}
 	case "sel":
 		return []string{"F:*." + e.Name}
 	case "call":
 		switch e.Args[0].Name {
+		case "fresh":
+			return []string{"brk", "fresh!"}
 		case "map":
 			return []string{"Kd:*", "Kv:*", "Kc:*"}
-		case "elems":
+		case "elems", "array":
 			return []string{"M:*"}
 		case "cell":
 			return []string{"C:*"}
